@@ -46,6 +46,11 @@ def _dispersive2(W, lt):
         for lam in (float(lam_lo) * float(d0), float(lam_hi) * float(d0), float(d0)):
             x, y = dt.shift(wavelength=lam, xs=0.0, ys=0.0)
             x, y = float(_np.ravel(x)[0]), float(_np.ravel(y)[0])
+            # an incoming displacement adds, and asking again (same wavelength, another incoming displacement) is unaffected by it
+            for xs, ys in ((0.25, -0.5), (-1.0, 2.0), (0.25, -0.5)):
+                x2, y2 = dt.shift(wavelength=lam, xs=xs, ys=ys)
+                if abs(float(_np.ravel(x2)[0]) - (x + xs)) > 1e-9 * (1 + abs(x)) or abs(float(_np.ravel(y2)[0]) - (y + ys)) > 1e-9 * (1 + abs(y)):
+                    return False
             dist = (lam - float(d0)) / float(d1)
             arc = _si.quad(lambda t: _np.sqrt(1 + (2 * float(a) * t + float(b)) ** 2), 0, x)[0]
             if abs(y - (float(a) * x * x + float(b) * x)) > 1e-9 * (1 + abs(y)) or abs(arc - dist) > 1e-6 * (1 + abs(dist)):
@@ -102,6 +107,8 @@ def run_shift(W, cfg):
             row = row - y * os / du[0]
             col = col + x * os / du[1]
     W.ob('shift', [got[0], got[1]], [row, col])
+    again = fld.shift(z=z, wavelength=lam, pixelscale=du, oversample=os, indexing='ij')
+    W.ob('shift, asked a second time', [again[0], again[1]], [got[0], got[1]])
     if 3 in cfg['order'] and len(cfg['order']) == 1:
         x, y = elems[0].shift(wavelength=lam, xs=0, ys=0)
         W.ob('on trace', y, t1 * x + t0)
